@@ -8,6 +8,9 @@
 #include <asl/time.h>
 #include <asl/Array.h>
 #include "Mutex.h"
+#ifdef ASL_VERIF
+#include "verif_hooks.h"
+#endif
 
 #ifdef _WIN32
 #include <process.h>
@@ -147,6 +150,9 @@ private:
 	{
 		Thread* t = (Thread*)p;
 		t->run();
+#ifdef ASL_VERIF
+		asl_verif_point(ASL_VP_THREAD_END, t);
+#endif
 		t->_threadFinished = true;
 		return 0;
 	}
@@ -157,6 +163,9 @@ private:
 		Context<Func> s = *(Context<Func>*)p;
 		((Context<Func>*)p)->ready = true;
 		s.f();
+#ifdef ASL_VERIF
+		asl_verif_point(ASL_VP_THREAD_END, s.t);
+#endif
 		s.t->_threadFinished = true;
 	}
 	template<class Func>
@@ -169,6 +178,9 @@ private:
 		{
 			s.f(i);
 		}
+#ifdef ASL_VERIF
+		asl_verif_point(ASL_VP_THREAD_END, s.t);
+#endif
 		s.t->_threadFinished = true;
 	}
 #endif
@@ -269,6 +281,9 @@ public:
 	{
 		Context<Func> s = { f, t, false, 0, 0, 0 };
 		t->run((Function_)Thread::beginf<Func>, (void*)&s);
+#ifdef ASL_VERIF
+		while (!s.ready) asl_verif_spin(&s.ready);
+#endif
 		while (!s.ready) {}
 		return *t;
 	}
@@ -302,6 +317,9 @@ public:
 			threads << new Thread;
 			Context<F> s = { f, threads.last(), false, i0 + i, i1, n };
 			threads.last()->run((Function_)Thread::beginfN<F>, (void*)&s);
+#ifdef ASL_VERIF
+			while (!s.ready) asl_verif_spin(&s.ready);
+#endif
 			while (!s.ready) {}
 		}
 		foreach(Thread* t, threads)
